@@ -164,6 +164,30 @@ def check_group_a(ctx: Ctx, name: str):
             cand_txt = ast.unparse(strip_copy(v)[0]) if v is not None else "?"
             better = {atom_of(f"{cand_txt} < {ov}"), atom_of(f"{cand_txt} <= {ov}")}
             ctx.ob("C19-O3", "R6 INCUMBENT", f, f"incumbent update `{ast.unparse(a.stmt)[:50]}` is guarded by `candidate < best`", bool(better & at), f"guards {sorted(x for x in at if ov in x)}", node=a.stmt)
+        # an in-loop publication comes after this iteration's incumbent update: in the body of the loop that holds the
+        # return, every statement that evaluates a candidate before the return has its incumbent update before it too
+        def top_index(body, node):
+            for i, st_ in enumerate(body):
+                if any(x is node for x in ast.walk(st_)):
+                    return i
+            return None
+
+        for k, (s_, sol_, inner_, raw_) in enumerate(pubs):
+            lp_ = s_.node.loop
+            if lp_ is None:
+                continue
+            loop_ast = lp_.ast if lp_.kind == "for" else next((w for w in own_nodes(f.node) if isinstance(w, ast.While) and w.test is lp_.ast), None)
+            if loop_ast is None:
+                continue
+            body = loop_ast.body
+            i_ret = top_index(body, s_.call)
+            ev_idx = [top_index(body, c) for c in ast.walk(loop_ast) if isinstance(c, ast.Call) and isinstance(c.func, ast.Name) and c.func.id == "evaluate"]
+            ev_idx = [i for i in ev_idx if i is not None and i_ret is not None and i <= i_ret]
+            up_idx = [top_index(body, a.stmt) for a in incs if top_index(body, a.stmt) is not None]
+            if not ev_idx or not up_idx:
+                continue
+            ok = all(i < i_ret for i in up_idx) if i_ret is not None else True
+            ctx.ob("C19-O3", "R6 INCUMBENT", f, f"Result#{k}: a return inside the loop comes after the incumbent update of this iteration", ok, "the candidate evaluated in this iteration is compared with the incumbent only after the return: a stop at this point hands back a stale incumbent that is worse than a point already evaluated", node=s_.call)
         # coverage: some route from every in-loop evaluation result to the incumbent passes only ordering guards
         if name != "evolve":
             objective_names = {o for _, o in pa.pairs} | {ov}
@@ -721,6 +745,18 @@ def _t_rename_lns(tree):
     M.rename_local(g, "candidate_obj", "cand_obj")
 
 
+def _v_tabu_update_after_progress(tree):
+    g = M.find_func(tree, "tabu_search")
+    holder = {}
+
+    def grab(s):
+        holder["s"] = s
+        return []
+
+    M.replace_stmt(g, lambda s: isinstance(s, ast.If) and M.src_is(s.test, "obj < best_obj"), grab)
+    M.replace_stmt(g, lambda s: isinstance(s, ast.If) and M.src_has(s.test, "report_progress"), lambda s: [s, holder["s"]])
+
+
 def _v_nm_greedy_expansion(tree):
     g = M.find_func(tree, "nelder_mead")
     M.replace_expr(g, lambda e: M.src_is(e, "expanded_val < reflected_val"), M.expr("expanded_val < best_val"))
@@ -735,6 +771,7 @@ VARIANTS = [
     M.Variant("anneal updates the best solution without its objective", AN, _v_anneal_stale_obj, "C19-O1"),
     M.Variant("anneal overwrites the best with any accepted move", AN, _v_anneal_best_worse, "C19-O3"),
     M.Variant("tabu keeps the worse of best / current", TB, _v_tabu_wrong_sign, "C19-O3"),
+    M.Variant("tabu updates the incumbent after the progress-stop return (seed C19-E)", TB, _v_tabu_update_after_progress, "C19-O3"),
     M.Variant("alns calls the user objective directly", LN, _v_user_objective_direct, "C19-O4"),
     M.Variant("evolve publishes the internal (signed) fitness", GE, _v_result_internal, "C19-O2"),
     M.Variant("particle swarm global best aliases a position edited in place", PS, _v_pso_alias, "C19-O1"),
